@@ -737,6 +737,54 @@ def opSort (s : State) (vi : Nat) (cmp : Cmp) : Res × State :=
       let sorted := stableSort (fun a b => numLess (decode v.kind b) (decode v.kind a)) r.1
       (.ok, writeElems s v 0 sorted)
 
+/-! ### the comparator protocol of `typedArraySortCtx` (builtin_typedarrays.go:16-74)
+
+`sort.Stable` drives the sort through `Less(i, j)` / `Swap(i, j)` with `i, j < Len()`.  Which calls it makes depends
+on the comparator's answers; the model therefore takes an ARBITRARY sequence of calls. -/
+
+/-- `typedArraySortCtx.{needValidate, detached}` -/
+structure SortCtx where
+  needValidate : Bool := false
+  detached : Bool := false
+  deriving Repr, Inhabited
+
+inductive SortCall
+  /-- `Less(i, j)` with a user comparator whose call detaches `det` -/
+  | less (i j : Nat) (det : List Nat)
+  | swap (i j : Nat)
+  deriving Repr
+
+/-- `checkDetached` (builtin_typedarrays.go:27): re-read the buffer state only after a comparator call -/
+def checkDetached (s : State) (v : View) (c : SortCtx) : SortCtx :=
+  if !c.detached && c.needValidate then { detached := !s.attached v.buf, needValidate := false } else c
+
+/-- `Less` (line 34, comparator present) and `Swap` (line 67) -/
+def sortCall (s : State) (v : View) (c : SortCtx) : SortCall → State × SortCtx
+  | .less i j det =>
+    let c := checkDetached s v c
+    if c.detached then (s, c) else
+    let r1 := s.readElem v i
+    let r2 := r1.2.readElem v j
+    -- the comparator runs (callback point), then `needValidate = true`
+    (r2.2.applyDet det, { c with needValidate := true })
+  | .swap i j =>
+    let c := checkDetached s v c
+    if c.detached then (s, c) else
+    let r1 := s.readElem v i
+    let r2 := r1.2.readElem v j
+    ((r2.2.writeElem v i r2.1).writeElem v j r1.1, c)
+
+def sortCalls (s : State) (v : View) (c : SortCtx) : List SortCall → State × SortCtx
+  | [] => (s, c)
+  | x :: xs => let r := sortCall s v c x; sortCalls r.1 v r.2 xs
+
+/-- seeded mutation C17-m2: `Swap` without `ctx.checkDetached()` -/
+def swapNoRecheck (s : State) (v : View) (c : SortCtx) (i j : Nat) : State :=
+  if c.detached then s else
+  let r1 := s.readElem v i
+  let r2 := r1.2.readElem v j
+  (r2.2.writeElem v i r2.1).writeElem v j r1.1
+
 /-- `typedArrayProto_reverse` (builtin_typedarrays.go:987). -/
 def opReverse (s : State) (vi : Nat) : Res × State :=
   match s.views[vi]? with
@@ -854,14 +902,31 @@ def filterLoop (s : State) (v : View) (keep : List Bool) (detAt : Nat) (det : Li
     let s := if k == detAt then r.2.applyDet det else r.2
     filterLoop s v keep detAt det (k + 1) n (if keep.getD k false then acc ++ [r.1] else acc)
 
-/-- `typedArrayProto_filter` (builtin_typedarrays.go:541), default species. -/
-def opFilter (s : State) (vi : Nat) (keep : List Bool) (detAt : Nat) (det : List Nat) : Res × State :=
+/-- `typedArrayProto_filter` (builtin_typedarrays.go:541). With a user species constructor (570-583) the kept elements
+are first collected in a private array of the receiver's type and then moved, value by value, into the typed array the
+constructor returned (validated by typedArrayCreate: attached, long enough; no user code runs after that). -/
+def opFilter (s : State) (vi : Nat) (keep : List Bool) (detAt : Nat) (det : List Nat) (sp : Species := none) : Res × State :=
   match s.views[vi]? with
   | none => (.bad, s)
   | some v =>
+    if speciesBad s sp then (.bad, s) else
     if !s.attached v.buf then (.err .type, s) else
     let r := filterLoop s v keep detAt det 0 v.length []
-    (.view 0 r.2.length, pushFresh r.1 v.kind r.2)
+    match sp with
+    | none => (.view 0 r.2.length, pushFresh r.1 v.kind r.2)
+    | some (di, sdet) =>
+      match s.views[di]? with
+      | none => (.bad, s)
+      | some dst =>
+        let s2 := r.1.applyDet sdet
+        -- typedArrayCreate (1389-1403)
+        if !s2.attached dst.buf then (.err .type, s2) else
+        if dst.length < r.2.length then (.err .type, s2) else
+        match convElems v.kind dst.kind r.2 with
+        | none => (.err .type, s2)
+        | some ys =>
+          let s3 := writeElems s2 dst 0 ys
+          (viewRes (s3.attached dst.buf) dst.lo dst.length, { s3 with views := s3.views ++ [dst] })
 
 /-- what the callback of `map` / the element list of `of` / `from` yields at position `k` -/
 def valAt (vals : List VArg) (k : Nat) : VArg := vals.getD k ⟨.undef, []⟩
@@ -956,10 +1021,14 @@ def opOf (s : State) (c : Ctor) (vals : List VArg) : Res × State :=
       | (.ok, s2) => (viewRes (s2.attached dst.buf) dst.lo dst.length, { s2 with views := s2.views ++ [dst] })
       | r => r
 
-/-- `arrayBufferProto_slice` (builtin_typedarrays.go:111), default species.  Follows goja in two places where
-ECMA-262 throws a TypeError without touching memory: an already detached receiver behaves as an empty buffer, and
-a receiver detached by an argument coercion is only rejected when `newLen > 0`. -/
-def opABSlice (s : State) (b : Nat) (start fin : Option IArg) : Res × State :=
+/-- what `ArrayBuffer.prototype.slice`'s species constructor does: `none` = %ArrayBuffer%; `some (b, det)` = a user
+constructor that detaches `det` and returns the existing buffer `b` -/
+abbrev BufSpecies := Option (Nat × List Nat)
+
+/-- `arrayBufferProto_slice` (builtin_typedarrays.go:111).  Follows goja in two places where ECMA-262 throws a TypeError
+without touching memory: an already detached receiver behaves as an empty buffer, and a receiver detached by an argument
+coercion is only rejected when `newLen > 0`. -/
+def opABSlice (s : State) (b : Nat) (start fin : Option IArg) (sp : BufSpecies := none) : Res × State :=
   if b ≥ s.bufs.length then (.bad, s) else
   let l : Int := s.blen b
   let s := s.applyDet (oDet start)
@@ -967,12 +1036,28 @@ def opABSlice (s : State) (b : Nat) (start fin : Option IArg) : Res × State :=
   let s := s.applyDet (oDet fin)
   let en := relToIdx (oVal fin l) l
   let newLen := (en - st).toNat
-  if newLen > 0 then
-    -- 127
-    if !s.attached b then (.err .type, s) else
-    let r := s.readRange b st.toNat newLen
-    (.view 0 newLen, { r.2 with bufs := r.2.bufs ++ [some r.1] })
-  else (.view 0 0, { s with bufs := s.bufs ++ [some []] })
+  match sp with
+  | none =>
+    if newLen > 0 then
+      -- 127
+      if !s.attached b then (.err .type, s) else
+      let r := s.readRange b st.toNat newLen
+      (.view 0 newLen, { r.2 with bufs := r.2.bufs ++ [some r.1] })
+    else (.view 0 0, { s with bufs := s.bufs ++ [some []] })
+  | some (nb, sdet) =>
+    if nb ≥ s.bufs.length then (.bad, s) else
+    -- 124: the species constructor runs (callback point) and returns buffer `nb`
+    let s := s.applyDet sdet
+    if newLen > 0 then
+      -- 127-134
+      if !s.attached b then (.err .type, s) else
+      if nb == b then (.err .type, s) else
+      if s.blen nb < newLen then (.err .type, s) else
+      -- 135: copy(ab.data, b.data[start:stop])
+      let r := s.readRange b st.toNat newLen
+      let s2 := r.2.writeRange nb 0 r.1
+      (.view 0 (s2.blen nb), s2)
+    else (.view 0 (s.blen nb), s)
 
 /-! ## reading methods: every element they look at must lie inside the view -/
 
@@ -1100,6 +1185,28 @@ def visitLoop (s : State) (v : View) (bwd : Bool) (detAt : Nat) (det : List Nat)
     let s := if i == detAt then r.2.applyDet det else r.2
     visitLoop s v bwd detAt det (i + 1) n (acc ++ [r.1])
 
+/-- `arrayIterObject.next` on a typed array (array.go:20): TypeError once the buffer is detached (checked before the
+length test, as long as the iterator is not exhausted), otherwise the element at the next index. `i` = index, fuel =
+remaining steps including the final "done" step; after yielding element `detAt` the adversary detaches. -/
+def iterLoop (s : State) (v : View) (detAt : Nat) (det : List Nat) (i : Nat) :
+    Nat → List (Option Num) → Res × State
+  | 0, acc => (.vals acc, s)
+  | n + 1, acc =>
+    if !s.attached v.buf then (.err .type, s) else
+    if n == 0 then (.vals acc, s) else      -- index = length: done
+    let r := s.readElem v i
+    let s := if i == detAt then r.2.applyDet det else r.2
+    iterLoop s v detAt det (i + 1) n (acc ++ [some (decode v.kind r.1)])
+
+/-- `values()` / `entries()` driven to exhaustion -/
+def opIterate (s : State) (vi : Nat) (detAt : Nat) (det : List Nat) : Res × State :=
+  match s.views[vi]? with
+  | none => (.bad, s)
+  | some v =>
+    -- typedArrayProto_values (1208): ensureNotDetached(true)
+    if !s.attached v.buf then (.err .type, s) else
+    iterLoop s v detAt det 0 (v.length + 1) []
+
 def opVisit (s : State) (vi : Nat) (bwd : Bool) (detAt : Nat) (det : List Nat) : Res × State :=
   match s.views[vi]? with
   | none => (.bad, s)
@@ -1158,10 +1265,11 @@ inductive Op
   | toReversed (v : Nat)
   | toSorted (v : Nat) (cmp : Cmp)
   | with_ (v : Nat) (idx : IArg) (a : VArg)
-  | filter (v : Nat) (keep : List Bool) (detAt : Nat) (det : List Nat)
+  | filter (v : Nat) (keep : List Bool) (detAt : Nat) (det : List Nat) (sp : Species)
   | map (v : Nat) (sp : Species) (vals : List VArg)
   | of_ (c : Ctor) (vals : List VArg)
-  | abSlice (b : Nat) (start fin : Option IArg)
+  | abSlice (b : Nat) (start fin : Option IArg) (sp : BufSpecies)
+  | iterate (v : Nat) (detAt : Nat) (det : List Nat)
   | search (v : Nat) (mode : SearchMode) (se : Num) (from_ : Option IArg)
   | at_ (v : Nat) (idx : IArg)
   | visit (v : Nat) (bwd : Bool) (detAt : Nat) (det : List Nat)
@@ -1191,10 +1299,11 @@ def step (s : State) : Op → Res × State
   | .toReversed v => opToReversed s v
   | .toSorted v c => opToSorted s v c
   | .with_ v i a => opWith s v i a
-  | .filter v keep detAt det => opFilter s v keep detAt det
+  | .filter v keep detAt det sp => opFilter s v keep detAt det sp
   | .map v sp vals => opMap s v sp vals
   | .of_ c vals => opOf s c vals
-  | .abSlice b st fi => opABSlice s b st fi
+  | .abSlice b st fi sp => opABSlice s b st fi sp
+  | .iterate v k det => opIterate s v k det
   | .search v m se fr => opSearch s v m se fr
   | .at_ v i => opAt s v i
   | .visit v bwd k det => opVisit s v bwd k det
